@@ -86,7 +86,7 @@ def run_rel(ctx, cases, metas, shards=8):
         ctx.case(key, nontrivial=nontrivial)
         if i in fails:
             names = sorted(set(fails[i]))
-            ctx.violation("rel|%s|%s" % ("+".join(n.split("@")[0] for n in names), key.split("#")[0]),
+            ctx.violation("rel|%s|%s" % ("+".join(names[:6]), key.split("#")[0]),
                           "%s: TLC rejects assertion(s) %s (tolerance units 1e-10*scale, scale=%g)" % (
                               desc, names, cases[i]["scale"]),
                           {"meta": payload, "failed": names, "case": cases[i]})
